@@ -180,6 +180,12 @@ def make_cases(rng, tier):
                                                           block([sif(mk_ecmp(">=", emath(mvar("i")), emath(mint(0))), block([scontinue()])), assign(("var", "n"), "=", ("math", mint(1)))]))]), []),
         ("unbounded-for-nested-break", block([sfor(assign(("var", "i"), "=", ("math", mint(0))), emath(matom(const(kbool(True)))), assign(("var", "i"), "+=", ("math", mint(1))),
                                                   block([sfor(assign(("var", "j"), "=", ("math", mint(0))), mk_ecmp("<", emath(mvar("j")), emath(mint(2))), assign(("var", "j"), "+=", ("math", mint(1))), block([sbreak()]))]))]), []),
+        # calls whose RECEIVER does not exist: a three-level call through a missing field, a method of a
+        # name injected as a nil pointer — each followed, in the same text, by an ordinary first-time method call (a fault in one
+        # call must not disturb the next one)
+        ("three-level-through-missing-field", block([scall(call("three", "h.Nope.GetN", [("const", kint(1))])), scall(call("method", "h.Mark", [("const", kint(7))]))]), [inj_struct("h")]),
+        ("method-of-a-nil-pointer", block([scall(call("method", "NilP.Mark", [("const", kint(1))])), scall(call("method", "h.IdU8", [("const", kint(7))]))]), [{"name": "NilP", "kind": "nilptr"}, inj_struct("h")]),
+        ("method-of-a-missing-field-value", block([assign(("var", "x"), "=", ("math", matom(acall(call("three", "h.Nope.EchoN", [("const", kint(1))]))))), scall(call("method", "h.IdF64", [("const", kint(7))]))]), [inj_struct("h")]),
         ("break-outside-loop", block([sbreak()]), []),
         ("continue-outside-loop", block([sif(emath(matom(const(kbool(True)))), block([scontinue()]))]), []),
         ("assign-to-injected-value", block([assign(("var", "c5"), "=", ("math", mint(1)))]), [inj_val("c5", tv_int("i64", 5))]),
@@ -207,6 +213,14 @@ def termination_scenarios():
     out.append(("forrange-over-a-field-that-grows", body1, [h3(), inj_func("Mark")], {"class": "ok", "Mark": 4, "PushSL": 3}))
     body2 = block([sforrange("k", "h.SL", block([sforrange("j", "h.SL", block([scall(call("method", "h.PushSL", [("const", kint(1))]))]))])), scall(call("func", "Mark", [("const", kint(99))]))])
     out.append(("nested-forrange-over-a-field-that-grows", body2, [h3(), inj_func("Mark")], {"class": "ok", "Mark": 1, "PushSL": None}))
+    # a call whose receiver does not exist fails — and leaves nothing behind that disturbs the NEXT rule of the same call, which
+    # makes an ordinary method call for the first time in the process
+    hh = lambda: inj_struct("h")
+    nxt = lambda m: block([scall(call("method", "h." + m, [("const", kint(7))]))])
+    for nm, bad, inj, m in (("three-level-call-through-a-missing-field-then-a-first-time-method-call", scall(call("three", "h.Nope.GetN", [("const", kint(1))])), [hh()], "IdF64"),
+                            ("method-of-a-nil-pointer-then-a-first-time-method-call", scall(call("method", "NilP.Mark", [("const", kint(1))])), [hh(), {"name": "NilP", "kind": "nilptr"}], "IdU8"),
+                            ("three-level-value-through-a-missing-field-then-a-first-time-method-call", assign(("var", "x"), "=", ("math", matom(acall(call("three", "h.Nope.EchoN", [("const", kint(1))]))))), [hh()], "Id64")):
+        out.append((nm, nxt(m), inj, {"class": "error", m: 1}, [("p0", None, 50, block([bad]))]))
     return out
 
 
@@ -271,7 +285,7 @@ def main(run):
     report_reader(run, PID, mism, lambda i: byid[i]["text"])
     escaped = [o for o in obs if o["class"] == "panic" or o.get("crash")]
     # (A') termination scenarios with driver-stated expectations
-    term_bad = stated_scenarios(run, PID, termination_scenarios(), "a loop over a collection that grows while it runs must visit the indexes present at its start and end")
+    term_bad = stated_scenarios(run, PID, termination_scenarios(), "a loop over a collection that grows while it runs visits the indexes present at its start and ends; a call whose receiver does not exist fails without disturbing the next rule")
     # (B)
     _ok, diff, _ = engfam.gen_obligation() if ok else (False, [], "")
     ecases = engine_cases(rng, run.tier)
